@@ -326,10 +326,11 @@ const (
 	ChunkRandom
 	ChunkZeroes // zero-length (0,nil) reads interleaved
 	ChunkFirstOne
+	ChunkEagerEOF // the read that delivers the last byte also returns io.EOF (legal for io.Reader)
 	NumChunkings
 )
 
-var ChunkNames = []string{"whole", "one-byte", "fixed-k", "random", "zero-length-interleaved", "first-read-1"}
+var ChunkNames = []string{"whole", "one-byte", "fixed-k", "random", "zero-length-interleaved", "first-read-1", "eof-with-last-bytes"}
 
 // ChunkReader hands out a byte string under a scripted segmentation and counts
 // what was asked of it. It is deliberately not a Seeker.
@@ -391,6 +392,24 @@ func (c *ChunkReader) Read(p []byte) (int, error) {
 	}
 	copy(p, c.B[c.Off:c.Off+n])
 	c.Off += n
+	if c.Class == ChunkEagerEOF && c.Off == len(c.B) {
+		return n, io.EOF
+	}
+	return n, nil
+}
+
+// EagerAt is an io.ReaderAt that returns io.EOF together with the bytes of a
+// read that ends exactly at the end of the data, as the contract allows.
+type EagerAt struct{ B []byte }
+
+func (e EagerAt) ReadAt(p []byte, off int64) (int, error) {
+	if off < 0 || off > int64(len(e.B)) {
+		return 0, io.EOF
+	}
+	n := copy(p, e.B[off:])
+	if n < len(p) || off+int64(n) == int64(len(e.B)) {
+		return n, io.EOF
+	}
 	return n, nil
 }
 
